@@ -230,7 +230,7 @@ def run_history(workdir, scen, cmds, style="int", protocol=2, drain=True, probe=
         log("stop", kind, res)
 
     def do_start(form, crash):
-        pl.src.vals = values(state["ver"])
+        pl.src.avals = values(state["ver"])
         pl.src.pulled = 0
         pl.src.crash = None
         pl.src.bad = None
@@ -335,10 +335,10 @@ def _clean(d):
 
 
 def cover_paths(records):
-    """Transition records [n, nc, shape, h] of the export -> distinct maximal command histories."""
+    """Transition records [lens, nc, shape, h] of the export -> distinct maximal command histories."""
     paths = set()
     for r in records:
-        paths.add((r["n"], r["nc"], json.dumps(r["shape"], sort_keys=True),
+        paths.add((tuple(r["lens"]), r["nc"], json.dumps(r["shape"], sort_keys=True),
                    tuple((e["cmd"], e["a"], tuple(e["rc"]), e["c"]) for e in r["h"])))
     prefixes = set()
     for n, nc, sh, h in paths:
@@ -349,7 +349,7 @@ def cover_paths(records):
         if p in prefixes:
             continue
         n, nc, sh, h = p
-        out.append(({"n": n, "nc": nc, "shape": json.loads(sh)},
+        out.append(({"lens": list(n), "nc": nc, "shape": json.loads(sh)},
                     [{"cmd": e[0], "a": e[1], "rc": list(e[2]), "c": e[3]} for e in h]))
     return out
 
@@ -359,7 +359,7 @@ def cover_paths(records):
 # (each shard: replay its histories on the real code, then one TLC run over the recorded events)
 
 _AT_RE = re.compile(r'^<<"AT", (\d+), (\d+)>>', re.M)
-_FIELDS = ("n", "nc", "shape", "ev")
+_FIELDS = ("lens", "nc", "shape", "ev")
 
 
 _KEEP = {"new": ("cmd", "res", "rc"), "drop": ("cmd", "res", "c"), "data": ("cmd",),
@@ -371,7 +371,7 @@ _KEEP = {"new": ("cmd", "res", "rc"), "drop": ("cmd", "res", "c"), "data": ("cmd
 def _tlc_trace(workdir, cfg, recs, label):
     path = os.path.join(workdir, "%s.json" % label)
     with open(path, "w") as f:
-        json.dump([{"n": r["n"], "nc": r["nc"], "shape": r["shape"],
+        json.dump([{"lens": r["lens"], "nc": r["nc"], "shape": r["shape"],
                     "ev": [{k: e[k] for k in _KEEP[e["cmd"]]} for e in r["ev"]]} for r in recs], f)
     res = core.run_tlc("Trace_Cache", cfg, workdir, workers=1, env={"TRACE_FILE": path}, timeout=3000)
     os.remove(path)
@@ -421,7 +421,7 @@ def _shard_job(args):
     recs = []
     for gi, scen, cmds, style, protocol in items:
         ev = run_history(os.path.join(d, "fs"), scen, cmds, style=style, protocol=protocol)
-        recs.append({"n": scen["n"], "nc": scen["nc"], "shape": scen["shape"], "ev": ev,
+        recs.append({"lens": scen["lens"], "n": max(scen["lens"]), "nc": scen["nc"], "shape": scen["shape"], "ev": ev,
                      "style": style, "protocol": protocol, "cmds": cmds, "gi": gi})
     rejected, stats = validate_shard(d, recs, "trace")
     hashes, bad = [], []
@@ -460,11 +460,14 @@ def classify(rec, acc):
     vals = [x["v"] for x in ev[start:acc] if x["cmd"] == "next" and x["res"] == "val"]
     if e["cmd"] == "next" and e["res"] == "stop":
         # a proper prefix of one version of the flow, after some run was interrupted, presented as complete
-        prefix = len(vals) < rec["n"] and all(v % 100 == i + 1 and v // 100 == vals[0] // 100
-                                              for i, v in enumerate(vals))
+        full = rec["n"]
+        if vals and 1 <= vals[0] // 100 <= len(rec["lens"]):
+            full = rec["lens"][vals[0] // 100 - 1]
+        prefix = len(vals) < full and all(v % 100 == i + 1 and v // 100 == vals[0] // 100
+                                          for i, v in enumerate(vals))
         if prefix and interrupted_before and not e["pulled"]:
             kind = "truncated-cache-served"
-        elif len(vals) < rec["n"]:
+        elif len(vals) < full:
             kind = "ended-early"
         else:
             kind = "unexpected-end"
@@ -526,7 +529,7 @@ def check_histories(ctx, items, what):
             if key not in worst or (len(rec["ev"]), rec["gi"]) < (len(worst[key][0]["ev"]), worst[key][0]["gi"]):
                 worst[key] = (rec, acc)
         for r in o["samples"]:
-            ctx.sample({"recorded_history_%s" % what: {k: r[k] for k in ("n", "nc", "shape", "style", "ev")}}, limit=4)
+            ctx.sample({"recorded_history_%s" % what: {k: r[k] for k in ("lens", "nc", "shape", "style", "ev")}}, limit=4)
     for key in sorted(worst):
         rec, acc = worst[key]
         ctx.violation("Cache:%s" % key, {
